@@ -1,0 +1,107 @@
+// SPDX-FileCopyrightText: 2026 The Pion community <https://pion.ly>
+// SPDX-License-Identifier: MIT
+
+//go:build verif && !js
+
+package webrtc
+
+import (
+	"fmt"
+	"reflect"
+	"sync"
+	"sync/atomic"
+	"unsafe"
+
+	"github.com/pion/ice/v4"
+)
+
+// VerifGatherer drives an ICEGatherer's candidate callback and candidate-pool flush without a
+// gathering ICE agent (C24). The callback is the very closure Gather registers with
+// agent.OnCandidate: the agent is closed before Gather is called, so Gather stores the closure in
+// the agent and GatherCandidates is refused; the closure is then read back from the agent.
+type VerifGatherer struct {
+	g  *ICEGatherer
+	cb func(ice.Candidate)
+}
+
+var (
+	verifClosedAgentOnce sync.Once
+	verifClosedAgent     *ice.Agent
+	verifClosedAgentErr  error
+)
+
+// NewVerifGatherer builds a gatherer with the given candidate pool size, in state gathering, that
+// reports to onCandidate (port of the candidate, or -1 for the nil end-of-gathering marker).
+func NewVerifGatherer(poolSize uint8, onCandidate func(port int)) (*VerifGatherer, error) {
+	se := SettingEngine{}
+	se.SetICEMulticastDNSMode(ice.MulticastDNSModeDisabled)
+	gatherer, err := NewAPI(WithSettingEngine(se)).NewICEGatherer(ICEGatherOptions{ICECandidatePoolSize: poolSize})
+	if err != nil {
+		return nil, err
+	}
+	gatherer.OnLocalCandidate(func(c *ICECandidate) {
+		if c == nil {
+			onCandidate(-1)
+		} else {
+			onCandidate(int(c.Port))
+		}
+	})
+	// one closed agent per process serves every VerifGatherer (runs are sequential within a process)
+	verifClosedAgentOnce.Do(func() {
+		if verifClosedAgentErr = gatherer.createAgent(); verifClosedAgentErr == nil {
+			verifClosedAgent = gatherer.getAgent()
+			verifClosedAgentErr = verifClosedAgent.Close()
+		}
+	})
+	if verifClosedAgentErr != nil {
+		return nil, verifClosedAgentErr
+	}
+	gatherer.lock.Lock()
+	gatherer.agent = verifClosedAgent
+	gatherer.lock.Unlock()
+	v := &VerifGatherer{g: gatherer}
+	if err = v.Regather(); err != nil {
+		return nil, err
+	}
+
+	return v, nil
+}
+
+// Regather calls Gather (as an ICE restart does) and picks up the callback it registers.
+func (v *VerifGatherer) Regather() error {
+	agent := v.g.getAgent()
+	_ = v.g.Gather() // registers the callback; the closed agent refuses to gather
+	field := reflect.ValueOf(agent).Elem().FieldByName("onCandidateHdlr")
+	if !field.IsValid() || !field.CanAddr() {
+		return fmt.Errorf("verif: ice.Agent has no onCandidateHdlr field") //nolint:err113
+	}
+	cb, ok := (*atomic.Value)(unsafe.Pointer(field.UnsafeAddr())).Load().(func(ice.Candidate)) //nolint:gosec
+	if !ok || cb == nil {
+		return fmt.Errorf("verif: no candidate callback registered") //nolint:err113
+	}
+	v.cb = cb
+
+	return nil
+}
+
+// Candidate invokes the agent callback with a host candidate on 127.0.0.1:port.
+func (v *VerifGatherer) Candidate(port int) error {
+	c, err := ice.NewCandidateHost(&ice.CandidateHostConfig{
+		Network: "udp", Address: "127.0.0.1", Port: port, Component: 1,
+	})
+	if err != nil {
+		return err
+	}
+	v.cb(c)
+
+	return nil
+}
+
+// EndOfCandidates invokes the agent callback with nil (gathering finished).
+func (v *VerifGatherer) EndOfCandidates() { v.cb(nil) }
+
+// Flush calls flushCandidates (what SetLocalDescription does).
+func (v *VerifGatherer) Flush() { v.g.flushCandidates() }
+
+// State returns the gatherer state.
+func (v *VerifGatherer) State() string { return v.g.State().String() }
